@@ -60,6 +60,8 @@ struct Sched {
     rc: Arc<RunCtx>,
     open: HashMap<usize, Vec<(&'static str, i64)>>, // what each thread's caller still holds, innermost last
     starting: Vec<usize>,
+    /// no reporter / compiled out: a thread normally never creates a sender, so its exit reports nothing
+    inert: bool,
 }
 
 fn spawn_collector_actor() -> Sender<u8> {
@@ -176,7 +178,7 @@ impl Sched {
                     let a = self.actors.get_mut(&t).unwrap();
                     if a.exiting && a.join.as_ref().map(|j| j.is_finished()).unwrap_or(true) {
                         finished_polls += 1;
-                        if finished_polls > 1000 {
+                        if finished_polls > if self.inert { 20 } else { 1000 } {
                             if let Some(j) = a.join.take() {
                                 let _ = j.join();
                             }
@@ -810,6 +812,7 @@ pub fn run(input: &str, output: &str, opts: Opts) -> std::io::Result<i32> {
             rc: Arc::new(RunCtx::new(opts.seed.wrapping_add(idx as u64))),
             open: HashMap::new(),
             starting: Vec::new(),
+            inert: !opts.ready || opts.disabled,
         };
         let is_prefix = beh["prefix"].as_bool().unwrap_or(false) || !beh["shuffle_seed"].is_null();
         if let Some(seed) = beh["shuffle_seed"].as_u64() {
